@@ -135,14 +135,9 @@ def how_class(h):
     return re.sub(r"\d+$", "", h)
 
 
-def analyse(tier, seed):
-    """Run everything once and return the list of findings
-    [(tags:set of property ids, classification dict, replay dict)] plus coverage numbers."""
-    cases, res, units, cst = results(tier, seed)
-    ss = corpus_for(tier, seed)
+def argtype_touches(ss):
+    """Per schema: the definitions that hold (transitively, by value or in containers) a type with the argument-type shortcut."""
     argtypes = {s["name"]: set(s.get("argtypes", [])) for s in ss}
-    defkind = {s["name"]: {d["name"]: d for d in s["defs"]} for s in ss}
-    # definitions that hold (transitively, by value or in containers) a type with the argument-type shortcut
     touches = {}
     for s in ss:
         refs = {}
@@ -171,6 +166,17 @@ def analyse(tier, seed):
                 if n not in tset and r & tset:
                     tset.add(n); changed = True
         touches[s["name"]] = tset
+    return touches
+
+
+def analyse(tier, seed):
+    """Run everything once and return the list of findings
+    [(tags:set of property ids, classification dict, replay dict)] plus coverage numbers."""
+    cases, res, units, cst = results(tier, seed)
+    ss = corpus_for(tier, seed)
+    argtypes = {s["name"]: set(s.get("argtypes", [])) for s in ss}
+    defkind = {s["name"]: {d["name"]: d for d in s["defs"]} for s in ss}
+    touches = argtype_touches(ss)
     finds = []
     jobs = []
     jobmeta = {}
@@ -356,3 +362,65 @@ def encode_traces(rep, prop, tier, seed):
             rep.violation({"check": "gen-trace-encode-error", "proto": h.get("p"), "unit": h.get("gen", {}).get("unit")}, {"run_head": h})
     return {"emitted_code_call_traces": {"runs_validated": nruns, "events_validated": events, "rejections": len(rejections),
                                          "types_traced": len(meta), "calls_without_a_spec_action": unmodelled}}
+
+
+def decode_traces(rep, prop, tier, seed):
+    """Call-log validation of EMITTED decoders: decode() of generated types runs on a TracedR around the real reader; every
+    call (value returned, bytes consumed, the reader's own length calls, skip, compact private state through the hook) must be
+    explained by spec/ThriftTrace.tla at the position the model has reached in the input, and a successful decode must end
+    exactly behind the value with a fresh compact context.  C02 owns the base cases, C08 the evolved ones on plain units,
+    C13 the evolved ones on units built with keep_unknown_fields."""
+    import random
+    import thrift_rt as rt
+    cases, res, units, cst = results(tier, seed)
+    touches = argtype_touches(corpus_for(tier, seed))
+    want = {"C02": ("base", ("", "k")), "C08": ("evo", ("",)), "C13": ("evo", ("k",))}[prop]
+    pool = [(ci, cs) for ci, cs in enumerate(cases) if cs["kind"] == want[0] and not (cs["kind"] == "evo" and cs["how"] == "retype" and cs["isunion"])]
+    rnd = random.Random(seed + 78)
+    rnd.shuffle(pool)
+    take = pool[: (120 if tier == "quick" else 2500)]
+    reqs, meta = [], []
+    for ci, cs in take:
+        for suffix in want[1]:
+            if not (cs["okk"] if suffix else cs["ok"]):
+                continue
+            if suffix and (cs["isarg"] or cs["ty"] in touches[cs["sid"]]):
+                continue        # the argument-type shortcut (known finding) takes the rest of the buffer wholesale
+            path = gen.find_type(units, cs["sid"] + suffix, cs["ty"])
+            if path is None:
+                continue
+            reqs.append({"id": len(reqs), "ty": path, "op": "trace_decode",
+                         "inputs": {"bin": cs["bin"] + TRAILER, "binle": cs["binle"] + TRAILER, "compact": cs["cs"] + TRAILER}})
+            meta.append({"schema": cs["sid"] + suffix, "type": cs["ty"], "kind": cs["kind"], "how": cs["how"], "unit": "keep" if suffix else "plain",
+                         "lens": {"bin": len(cs["bin"]), "binle": len(cs["binle"]), "compact": len(cs["cs"])},
+                         "inputs": reqs[-1]["inputs"]})
+    out = gen.run_worker(reqs, tag="gdtrace")
+    tp = os.path.join(c.OUT, f"gendtrace-{os.getpid()}.ndjson")
+    runs = 0
+    unmodelled = {}
+    with open(tp, "w") as f:
+        for i, m in enumerate(meta):
+            r = out.get(i)
+            if r is None or r.get("tool_error"):
+                raise c.ToolError("worker: " + str(r))
+            if not r.get("ok"):
+                continue
+            for proto, t in r["traces"].items():
+                for u in t["unmodelled"]:
+                    unmodelled[u] = unmodelled.get(u, 0) + 1
+                runs += 1
+                g = {k: v for k, v in m.items() if k != "inputs"}
+                f.write(json.dumps({"op": "reset", "run": runs, "dir": "r", "p": proto, "buf": "bytesmut", "err": "", "input": m["inputs"][proto],
+                                    "gen": g, "decode_err": t["err"]}) + "\n")
+                for ev in t["events"]:
+                    f.write(json.dumps(ev) + "\n")
+                if not t["err"]:
+                    f.write(json.dumps({"op": "endr", "used": m["lens"][proto]}) + "\n")
+    events, nruns, rejections, crashed = rt.validate_trace(tp)
+    os.remove(tp)
+    for r in rejections:
+        g = r["run_head"].get("gen", {})
+        rep.violation({"check": "gen-decode-trace-rejected", "proto": r["run_head"].get("p"), "op": r["event"].get("op", ""), "unit": g.get("unit"), "how": g.get("how")},
+                      {"generated_type": g, "rejected_at": r["line_in_run"], "event": r["event"], "run": r["run_lines"][:80]})
+    return {"emitted_decoder_call_traces": {"runs_validated": nruns, "events_validated": events, "rejections": len(rejections),
+                                            "cases_traced": len(meta), "calls_without_a_spec_action": unmodelled}}
